@@ -16,3 +16,12 @@ claim("C13", "exploration", "bounded-exhaustive enumeration of generated network
       "Every network of the grammar up to depth 2 (thorough: larger alphabet, depth-3 chains) x a configuration sub-lattice, every builtin operator as a corner model in several arities/ranks/types, structural corner models and every CLI option value are compiled through vela.main(); the outcome must be an output model that a plain flatbuffer reader parses, or a non-zero status with an Error diagnosis; any escaping exception, hang or death is a violation keyed by its crash site.",
       "Validity of a generated model is by construction (schema-valid parts); there is no TFLite interpreter in the image to confirm semantic validity, so corner-model crashes are recorded as findings with that qualification. Crash identity = exception type + innermost Vela frame.",
       "DESIGN.md section 4 C13")
+
+claim("C02", "exploration", "bounded-exhaustive enumeration of networks x configurations; every emitted stream decoded from the output file and its exact footprints compared with published extents",
+      "Every network of the grammar (depth <= 2 quick; larger alphabet, depth-3 chains thorough) x configuration sub-lattice is compiled by the real driver; each command stream is decoded from the bytes of the output file with a pinned ISA table and the exact strided footprint of every operation and DMA is checked against the extents of the flash, scratch, fast-scratch tensors and SHRAM; no write to the constants region; fast scratch <= arena cache size in dedicated-SRAM modes.",
+      "Hardware fetch extent of an operation is derived from its OFM extent/kernel/stride/padding/upscale registers (A1/A2); networks beyond the depth bound are not covered.",
+      "DESIGN.md section 4 C02")
+claim("C12", "exploration", "bounded-exhaustive enumeration of networks x (memory mode, allocator, alignment, cache size); arena plan re-derived from the output file only",
+      "For every compiled case the OfflineMemoryAllocation offsets, tensor sizes and operator order of the output file give live intervals and extents; pairwise live overlap, alignment to --cpu-tensor-alignment, scratch tensor at offset 0 containing all custom-op operands and the whole region-1 footprint, fast-scratch aliasing/cache containment and the summary CSV figures are checked.",
+      "Scratch tensors are containers (A8); in-place aliasing inside one Ethos-U operator is delegated to C03; liveness is defined by the output operator order.",
+      "DESIGN.md section 4 C12")
